@@ -2908,6 +2908,7 @@ package go_clipper2
 //@ spec bitOf(x int, b int) int = ite(b == 0, x%2, ite(b == 1, (x/2)%2, ite(b == 2, (x/4)%2, (x/8)%2)))
 //@ func RectClip64.checkEdges
 //@   props C06 C03
+//@   tier B
 //@   nosafety
 //@   assumes len(r.edges) == 8 && forallp(q, OutPt2, q.next != nil && q.prev != nil && dom(q.pt, 29))
 //@   loop 0 invariant [ring] len(r.edges) == 8 && forallp(q, OutPt2, q.next != nil && q.prev != nil && dom(q.pt, 29))
